@@ -59,9 +59,30 @@ struct MdClass {
             p.item('C', arr_text(q)); // contains() probe, present or absent (beyond all codes included)
         }
         if (g.prop == "C19") p.set("steps", draw_lifetime_steps(cfg));
-        if (g.prop == "C20") { p.set("bad_index", work.below(n)); p.set("bad_dim", work.below(D)); p.set("bad_extra_bits", work.below(std::numeric_limits<T>::digits - field_bits + 1)); }
+        if (g.prop == "C20") { p.set("bad_kind", cfg.chance(350) ? (uint64_t) cfg.range(1, 4) : 0); p.set("bad_index", work.below(n)); p.set("bad_dim", work.below(D)); p.set("bad_extra_bits", work.below(std::numeric_limits<T>::digits - field_bits + 1)); }
         (void) st;
         return p;
+    }
+
+    template<typename S, size_t... I> static auto signed_tuple(const std::array<S, D> &a, std::index_sequence<I...>) { return std::make_tuple(a[I]...); }
+    /// the points as tuples of the signed type S (coordinates reduced to its non-negative range), point bi negative in dimension bd
+    template<typename S>
+    static bool signed_rejected(const std::vector<Point> &pts, size_t bi, size_t bd, unsigned extra, const sim::Env &env) {
+        using Tup = decltype(signed_tuple<S>(std::array<S, D>{}, std::make_index_sequence<D>()));
+        const uint64_t lim = std::min<uint64_t>((uint64_t) std::numeric_limits<S>::max(), (uint64_t) coord_max);
+        std::vector<Tup> v;
+        for (size_t i = 0; i < pts.size(); ++i) {
+            Arr a = from_point(pts[i]);
+            std::array<S, D> s;
+            for (size_t d = 0; d < D; ++d) s[d] = S(uint64_t(a[d]) % (lim + 1));
+            if (i == bi) s[bd] = extra == 0 ? std::numeric_limits<S>::min() : S(-(int64_t) std::min<uint64_t>(extra, lim));
+            v.push_back(signed_tuple<S>(s, std::make_index_sequence<D>()));
+        }
+        bool rejected = false;
+        sim::begin_run(env);
+        try { Index idx(v.begin(), v.end()); (void) idx; } catch (const std::exception &) { rejected = true; }
+        sim::end_run();
+        return rejected;
     }
 
     static Arr parse_arr(const std::vector<std::string> &t, size_t off) { Arr a{}; for (size_t d = 0; d < D && off + d < t.size(); ++d) a[d] = (T) std::strtoull(t[off + d].c_str(), nullptr, 10); return a; }
@@ -87,6 +108,18 @@ struct MdClass {
             size_t bi = (size_t) p.get_u("bad_index", 0) % pts.size(), bd = (size_t) p.get_u("bad_dim", 0) % D;
             Arr a = from_point(pts[bi]);
             unsigned extra = (unsigned) p.get_u("bad_extra_bits", 0);
+            if (unsigned kind = (unsigned) p.get_u("bad_kind", 0)) {
+                // the offending coordinate is a negative value held in a signed element type of the input tuples (any width):
+                // the encoder takes its fields as the unsigned T, so it is wider than any field
+                st.inc("fault.invalid_op");
+                bool rejected = kind == 1 ? signed_rejected<int8_t>(pts, bi, bd, extra, env) : kind == 2 ? signed_rejected<int16_t>(pts, bi, bd, extra, env)
+                              : kind == 3 ? signed_rejected<int32_t>(pts, bi, bd, extra, env) : signed_rejected<int64_t>(pts, bi, bd, extra, env);
+                tr.add_str(rejected ? "exception" : "no exception");
+                if (!rejected) out.fail("wide-coordinate-not-rejected", "point " + std::to_string(bi) + " has a negative coordinate (int" + std::to_string(4 << kind) + "_t tuples) in dimension " + std::to_string(bd) + ": constructor accepted it");
+                st.mark("nontrivial", sim::mix(sim::hash_str(ce.name.c_str()), bi * 8 + bd + extra * 100000 + kind * 7777777));
+                out.trace_hash = tr.h;
+                return out;
+            }
             a[bd] = T(T(1) << std::min<unsigned>(field_bits - 1 + extra, std::numeric_limits<T>::digits - 1)); // BIT_WIDTH = field_bits + extra
             pts[bi] = to_point(a);
             st.inc("fault.invalid_op");
